@@ -15,22 +15,6 @@ DenseOf(A)    == [i \in Idx(A.n) |-> [j \in Idx(A.m) |-> R(At(A, i, j))]]
 Rng(lo, hi) == [k \in 1..(IF hi >= lo THEN hi - lo + 1 ELSE 0) |-> lo + k - 1]
 RngDown(hi, lo) == [k \in 1..(IF hi >= lo THEN hi - lo + 1 ELSE 0) |-> hi - k + 1]
 
-\* sum_{k = lo}^{hi} t(k)
-RSumRange(t(_), lo, hi) == FoldLeft(LAMBDA acc, k : RAdd(acc, t(k)), RZero, Rng(lo, hi))
-RDot(u, v, n)    == RSumRange(LAMBDA k : RMul(u[k], v[k]), 0, n - 1)
-MatVecR(M, v, n) == [i \in Idx(n) |-> RDot(M[i], v, n)]
-MatMulR(X, Y, n) == [i \in Idx(n) |-> [j \in Idx(n) |-> RSumRange(LAMBDA k : RMul(X[i][k], Y[k][j]), 0, n - 1)]]
-IdentR(n)        == [i \in Idx(n) |-> [j \in Idx(n) |-> IF i = j THEN ROne ELSE RZero]]
-VecEq(u, v, n)   == \A i \in Idx(n) : REq(u[i], v[i])
-MatEq(X, Y, n)   == \A i \in Idx(n) : \A j \in Idx(n) : REq(X[i][j], Y[i][j])
-VAdd(u, v, n)    == [i \in Idx(n) |-> RAdd(u[i], v[i])]
-VSub(u, v, n)    == [i \in Idx(n) |-> RSub(u[i], v[i])]
-VScale(a, u, n)  == [i \in Idx(n) |-> RMul(a, u[i])]
-\* sparse residual f - A x with A a CRS record of integers
-ResidualR(A, f, x) ==
-    [i \in Idx(A.n) |-> RSub(f[i], FoldLeft(LAMBDA acc, p : RAdd(acc, RMul(R(A.val[p]), x[A.col[p]])),
-                                             RZero, Rng(Ptr(A, i) + 1, Ptr(A, i + 1))))]
-
 \* ---- overflow-lean arithmetic (same values as Rat's RAdd / RMul): common factors are
 \* cancelled *before* multiplying, so that vectors sharing a denominator D stay near D
 \* instead of D^2 (TLC integers are 32-bit)
@@ -41,8 +25,26 @@ QMul(a, b) == IF a[1] = 0 \/ b[1] = 0 THEN RZero
                        g2 == GCD(RAbsI(b[1]), a[2])
                    IN  <<(a[1] \div g1) * (b[1] \div g2), (a[2] \div g2) * (b[2] \div g1)>>
 QDiv(a, b) == QMul(a, RInv(b))
+QEq(a, b)  == a = b                  \* lowest terms on both sides
 QSumRange(t(_), lo, hi) == FoldLeft(LAMBDA acc, k : QAdd(acc, t(k)), RZero, Rng(lo, hi))
 QSumSeq(s) == FoldLeft(LAMBDA acc, v : QAdd(acc, v), RZero, s)
+
+\* sum_{k = lo}^{hi} t(k)
+RSumRange(t(_), lo, hi) == QSumRange(t, lo, hi)
+RDot(u, v, n)    == QSumRange(LAMBDA k : QMul(u[k], v[k]), 0, n - 1)
+MatVecR(M, v, n) == [i \in Idx(n) |-> RDot(M[i], v, n)]
+MatMulR(X, Y, n) == [i \in Idx(n) |-> [j \in Idx(n) |-> QSumRange(LAMBDA k : QMul(X[i][k], Y[k][j]), 0, n - 1)]]
+IdentR(n)        == [i \in Idx(n) |-> [j \in Idx(n) |-> IF i = j THEN ROne ELSE RZero]]
+\* every operator here returns rationals in lowest terms: equality is equality of the pairs
+VecEq(u, v, n)   == \A i \in Idx(n) : u[i] = v[i]
+MatEq(X, Y, n)   == \A i \in Idx(n) : \A j \in Idx(n) : X[i][j] = Y[i][j]
+VAdd(u, v, n)    == [i \in Idx(n) |-> QAdd(u[i], v[i])]
+VSub(u, v, n)    == [i \in Idx(n) |-> QSub(u[i], v[i])]
+VScale(a, u, n)  == [i \in Idx(n) |-> QMul(a, u[i])]
+\* sparse residual f - A x with A a CRS record of integers
+ResidualR(A, f, x) ==
+    [i \in Idx(A.n) |-> QSub(f[i], FoldLeft(LAMBDA acc, p : QAdd(acc, QMul(R(A.val[p]), x[A.col[p]])),
+                                             RZero, Rng(Ptr(A, i) + 1, Ptr(A, i + 1))))]
 
 \* ---- reference solve: Gauss-Jordan with row exchanges (first non-zero pivot); the
 \* meaning of "x = A^-1 f", independent of every transcribed algorithm.
